@@ -101,6 +101,8 @@ type Engine struct {
 	work   [][]Decision
 
 	nondet   []NondetVar
+	asserted map[string]bool
+	defCache map[string]string
 	declared map[string]bool
 	counts   map[string]int
 	defs     int
@@ -148,6 +150,10 @@ func NewEngine(s *Solver, harness string) *Engine {
 }
 
 func (e *Engine) define(sort, expr string) string {
+	if n, ok := e.defCache[expr]; ok {
+		return n
+	}
+	defer func() { e.defCache[expr] = fmt.Sprintf("t!%d", e.defs) }()
 	e.defs++
 	n := fmt.Sprintf("t!%d", e.defs)
 	e.S.Send(fmt.Sprintf("(define-fun %s () %s %s)", n, sort, expr))
@@ -164,8 +170,103 @@ func (e *Engine) checkWith(expr string) string {
 	return r
 }
 
+func splitNot(expr string) (string, bool) {
+	neg := false
+	for strings.HasPrefix(expr, "(not ") && strings.HasSuffix(expr, ")") {
+		expr = expr[5 : len(expr)-1]
+		neg = !neg
+	}
+	return expr, neg
+}
+
+// known reports whether the truth of expr is already fixed syntactically on this path.
+func (e *Engine) known(expr string) (bool, bool) {
+	base, neg := splitNot(expr)
+	if v, ok := e.asserted[base]; ok {
+		return v != neg, true
+	}
+	return false, false
+}
+
+func (e *Engine) remember(expr string, val bool) {
+	base, neg := splitNot(expr)
+	v := val != neg
+	e.asserted[base] = v
+	// cheap order/equality implications between syntactically related literals
+	op, a, b, ok := splitBinary(base)
+	if !ok {
+		return
+	}
+	set := func(o, x, y string, t bool) {
+		k := "(" + o + " " + x + " " + y + ")"
+		if _, seen := e.asserted[k]; !seen {
+			e.asserted[k] = t
+		}
+	}
+	switch op {
+	case "bvslt", "bvult", "fp.lt", "<":
+		eq := map[string]string{"bvslt": "=", "bvult": "=", "fp.lt": "fp.eq", "<": "="}[op]
+		if v {
+			set(op, b, a, false)
+			set(eq, a, b, false)
+			set(eq, b, a, false)
+		}
+	case "=", "fp.eq":
+		set(op, b, a, v)
+		if v {
+			for _, lt := range []string{"bvslt", "bvult", "fp.lt", "<"} {
+				set(lt, a, b, false)
+				set(lt, b, a, false)
+			}
+		}
+	}
+}
+
+// splitBinary splits "(op A B)" into its parts (A, B balanced s-expressions).
+func splitBinary(expr string) (op, a, b string, ok bool) {
+	if len(expr) < 5 || expr[0] != '(' || expr[len(expr)-1] != ')' {
+		return
+	}
+	in := expr[1 : len(expr)-1]
+	sp := strings.IndexByte(in, ' ')
+	if sp < 0 {
+		return
+	}
+	op = in[:sp]
+	rest := in[sp+1:]
+	var parts []string
+	depth, start := 0, 0
+	for i := 0; i < len(rest); i++ {
+		switch rest[i] {
+		case '(':
+			depth++
+		case ')':
+			depth--
+		case ' ':
+			if depth == 0 {
+				parts = append(parts, rest[start:i])
+				start = i + 1
+			}
+		}
+	}
+	parts = append(parts, rest[start:])
+	if len(parts) != 2 || depth != 0 {
+		return
+	}
+	return op, parts[0], parts[1], true
+}
+
 // Branch decides a symbolic condition; both feasible sides are explored (the other one later).
 func (e *Engine) Branch(c *Sym) bool {
+	if v, ok := e.known(c.E); ok {
+		return v
+	}
+	r := e.branch(c)
+	e.remember(c.E, r)
+	return r
+}
+
+func (e *Engine) branch(c *Sym) bool {
 	i := len(e.trace)
 	if i < len(e.prefix) {
 		d := e.prefix[i]
@@ -229,6 +330,13 @@ func (e *Engine) Assume(c value) {
 			panic(pathEnd{"assumption false"})
 		}
 	case *Sym:
+		if v, ok := e.known(c.E); ok {
+			if !v {
+				panic(pathEnd{"assumption contradicts the path condition"})
+			}
+			return
+		}
+		e.remember(c.E, true)
 		if len(e.trace) < len(e.prefix) {
 			// inside the replayed prefix the assumption was feasible before
 			e.assert(c.E)
@@ -423,10 +531,15 @@ func (e *Engine) Assert(label string, c value) {
 	}
 	neg := "true"
 	if s, ok := c.(*Sym); ok {
+		if v, ok := e.known(s.E); ok && v {
+			e.Res.Discharged++
+			return
+		}
 		neg = "(not " + s.E + ")"
 	}
 	e.obligation(label, "assert", "", neg)
 	if s, ok := c.(*Sym); ok {
+		e.remember(s.E, true)
 		e.assert(s.E)
 		if e.S.CheckSat() == "unsat" {
 			panic(pathEnd{"assertion fails on the whole path"})
@@ -673,6 +786,8 @@ func (e *Engine) runPath(prefix []Decision, run func()) {
 	e.trace = e.trace[:0]
 	e.nondet = e.nondet[:0]
 	e.counts = map[string]int{}
+	e.asserted = map[string]bool{}
+	e.defCache = map[string]string{}
 	e.defs = 0
 	e.steps = 0
 	e.pathObl = 0
